@@ -28,7 +28,7 @@ OP_NAMES = ["G", "Sgate", "BSgate", "Dgate", "Vac", "Coherent", "Rgate", "Xgate"
             "Measure1", "True1", "Interferometer", "S2gate", "e", "E", "I", "S", "N"]
 VAR_NAMES = ["a", "al", "alpha", "b", "beta", "x", "y", "z", "phi", "r", "theta", "names", "inx", "pix",
              "sinh2", "q0a", "e", "E", "I", "S", "N", "j", "U", "A", "B", "M", "A0", "A1", "k_1", "x_0_0",
-             "Measure1", "True1", "forx", "int1", "p", "pa", "t0"]
+             "Measure1", "True1", "forx", "int1", "p", "pa", "t0", "p0", "p3", "p12"]
 KW_NAMES = ["a", "phi", "r", "select", "dark_counts", "cutoff", "shots", "e", "alpha", "al", "x", "N"]
 PAR_NAMES = ["a", "al", "alpha", "b", "e", "E", "I", "x", "phi", "r", "theta", "S", "N", "p", "sq", "t1",
              "alpha_1", "aa", "p0", "p1", "Q"]
